@@ -68,6 +68,26 @@ class Elem(Cell):
             wl.setdefault(self.idx, set()).add(v)
 
 
+class ErasedInt:
+    """the result of converting an erased floating-point value to an integer type"""
+
+    def __init__(self, site):
+        self.site = site
+
+    def __repr__(self):
+        return "ErasedInt(%s)" % self.site
+
+    def _use(self, *a):
+        raise AnalysisBroken("use of an integer converted from an erased floating-point value (conversion at %s)" % self.site)
+    __index__ = __int__ = __add__ = __radd__ = __sub__ = __rsub__ = __mul__ = __rmul__ = __lt__ = __le__ = __gt__ = __ge__ = __floordiv__ = __mod__ = __neg__ = __bool__ = _use
+
+    def __eq__(self, o):
+        return self is o
+
+    def __hash__(self):
+        return id(self)
+
+
 class ListElem(Cell):
     """lvalue of one element of a std::array / braced table of objects (python list)"""
     __slots__ = ("lst", "idx")
@@ -249,6 +269,14 @@ class ConcDomain(Domain):
     def field_default(self, t, name):
         import re
         t = t.strip()
+        m_ = re.match(r"^(const\s+)?std::array<\s*(int|double)\s*,\s*([A-Za-z_][\w:]*|\d+)\s*>$", t)
+        if m_:
+            ext = int(m_.group(3)) if m_.group(3).isdigit() else self.named_int_constant(m_.group(3))
+            if ext is None:
+                raise AnalysisBroken("member %s: std::array whose extent `%s` cannot be resolved" % (name, m_.group(3)))
+            if m_.group(2) == "int":
+                return Arr(name, ext, elem="int")
+            return Arr(name, ext)
         m = re.match(r"^(const\s+)?int\s*\[(\d+)\]$", t)
         if m:
             return Arr(name, int(m.group(2)), elem="int")
@@ -276,7 +304,9 @@ class ConcDomain(Domain):
     def cast(self, v, t, e, fr):
         if v is TOP:
             if t in ("int", "long", "size_t", "std::size_t", "unsigned long", "unsigned int"):
-                raise AnalysisBroken("float->int conversion of an erased value at %s" % ir.locstr(e))
+                # an integer nobody knows: storing it is harmless (a variable that is computed and never used); any USE of it
+                # (arithmetic, comparison, subscript, loop bound) is outside this domain and raises there
+                return ErasedInt(ir.locstr(e))
             return TOP
         if isinstance(v, bool) and t in ("int",):
             return int(v)
@@ -306,6 +336,10 @@ class ConcDomain(Domain):
         raise AnalysisBroken("|| on %r" % (a,))
 
     def abs_binop(self, op, a, b, e, fr):
+        if isinstance(a, ErasedInt):
+            a._use()
+        if isinstance(b, ErasedInt):
+            b._use()
         if a is TOP or b is TOP:
             if op in ("<", "<=", ">", ">=", "==", "!="):
                 return TOP
@@ -339,6 +373,8 @@ class ConcDomain(Domain):
         raise AnalysisBroken("binary %s on %r, %r at %s" % (op, a, b, ir.locstr(e)))
 
     def index(self, base, idx, e, fr):
+        if isinstance(idx, ErasedInt):
+            idx._use()
         if isinstance(base, list):
             if not isinstance(idx, int) or not (0 <= idx < len(base)):
                 o = ("table of %d entries" % len(base), idx, len(base), ir.locstr(e))
@@ -719,6 +755,24 @@ class ConcDomain(Domain):
         import re
         t = e.get("t", "")
         m = re.match(r"^(const\s+)?std::array<\s*int\s*,\s*(\d+)\s*>", t)
+        m2 = re.match(r"^(const\s+)?std::array<\s*(int|double)\s*,\s*([A-Za-z_][\w:]*)\s*>", t)
+        if m is None and m2 is not None:
+            # the extent is a named constant (static constexpr): resolve it, or decline - never guess a size
+            ext = self.named_int_constant(m2.group(3))
+            if ext is None:
+                raise AnalysisBroken("std::array whose extent `%s` is a named constant that cannot be resolved, at %s" % (m2.group(3), ir.locstr(e)))
+            t = "%sstd::array<%s, %d>" % (m2.group(1) or "", m2.group(2), ext)
+            m = re.match(r"^(const\s+)?std::array<\s*int\s*,\s*(\d+)\s*>", t)
+            if m is None:      # array of double with a named extent: a zero-filled array of that length, then the listed values
+                a = self.new_array("array", ext, "double")
+                elems0 = e["elems"]
+                while len(elems0) == 1 and elems0[0].get("k") == "InitList":
+                    elems0 = elems0[0]["elems"]
+                for i, x in enumerate(elems0):
+                    self.index(a, i, e, fr).set(self.interp.rvalue(x, fr))
+                for i in range(len(elems0), ext):
+                    self.index(a, i, e, fr).set(0)
+                return a
         elems = e["elems"]
         while len(elems) == 1 and elems[0].get("k") == "InitList":
             elems = elems[0]["elems"]
@@ -735,6 +789,19 @@ class ConcDomain(Domain):
             a.ints = dict(enumerate(vals))
             return a
         return vals
+
+    def named_int_constant(self, name):
+        """value of a namespace-scope or static constexpr integer constant named (possibly unqualified) `name`"""
+        g = getattr(self.prog, "globals", {})
+        cands = [v for q, v in g.items() if q == name or q.endswith("::" + name.split("::")[-1])]
+        vals = set()
+        for v in cands:
+            i = v.get("init")
+            while i is not None and i.get("k") in ("Paren", "Cast", "ImplicitCast", "Expr") and i.get("e") is not None:
+                i = i["e"]
+            if i is not None and i.get("k") == "Int":
+                vals.add(int(i["v"]))
+        return vals.pop() if len(vals) == 1 else None
 
     def num_threads(self):
         return 2
